@@ -32,8 +32,9 @@
 (*   FEss(r)   compute_ess        FToArviz(r, sel)  to_arviz_inferencedata *)
 (*   FRhat(r, mode)   compute_rhat(fl)  or  compute_rhat(fl[1]) (single)   *)
 (*   FBurnthin(r, b, t)  FConv(r, kind)   results are NEW heap objects     *)
-(* and one action of the caller, FThinList(b, t): every element of the     *)
-(* list is replaced by its burnthin (lst[k] = lst[k].burnthin(b, t)).      *)
+(* and two actions of the caller: FThinList(b, t), every element of the    *)
+(* list is replaced by its burnthin (lst[k] = lst[k].burnthin(b, t)), and  *)
+(* FSwapList, lst[0] = a chain that was not in the list.                   *)
 (* Frame: a library action never alters an existing object nor the list;   *)
 (* RhatFunctional: the chains entering R-hat are <<receiver>> \o list as   *)
 (* the CALLER last set it (ghost fl0).  The state has no history, so the   *)
@@ -69,9 +70,10 @@ VARIABLES fc,     \* configuration [N, g, lst]
           fo,     \* heap: sequence of objects [ch, cols, par, vec, geom]; ch = which stored chain the columns index
           fl,     \* the caller's list of chains (identities = positions in fo), as it is NOW
           fl0,    \* ghost: the list as the CALLER last set it
-          fthin   \* the caller has replaced the elements of the list by their burnthin
-fvars == <<fc, fo, fl, fl0, fthin>>
-allvars == <<c, obj, obj2, src, sel, fc, fo, fl, fl0, fthin>>
+          fthin,  \* the caller has replaced the elements of the list by their burnthin
+          fswap   \* the caller has replaced the first element of the list by a chain that was not in it
+fvars == <<fc, fo, fl, fl0, fthin, fswap>>
+allvars == <<c, obj, obj2, src, sel, fc, fo, fl, fl0, fthin, fswap>>
 
 NoObj == [cols |-> <<>>, par |-> TRUE, vec |-> TRUE, geom |-> "none"]
 
@@ -256,7 +258,7 @@ Configs == {[N |-> n, g |-> g, joint |-> FALSE] : n \in Ns, g \in Geoms \ {"wide
            \cup {[N |-> n, g |-> "c1d3", joint |-> TRUE] : n \in JointNs}
 
 NoFC == [N |-> 0, g |-> "none", lst |-> 0]
-FrameOff == fc = NoFC /\ fo = <<>> /\ fl = <<>> /\ fl0 = <<>> /\ fthin = FALSE
+FrameOff == fc = NoFC /\ fo = <<>> /\ fl = <<>> /\ fl0 = <<>> /\ fthin = FALSE /\ fswap = FALSE
 
 Init == /\ c \in Configs
         /\ obj = Source(c) /\ obj2 = Source2(c) /\ src = Source(c)
@@ -384,7 +386,7 @@ FToArviz(r, which) == FPure("toarviz", r, which,
 FRhat(r, mode) ==
     /\ r \in Recvs
     /\ fl' = ListAfterRhat(r, mode)
-    /\ UNCHANGED <<fc, fo, fl0, fthin>>
+    /\ UNCHANGED <<fc, fo, fl0, fthin, fswap>>
     /\ FEmit("rhat", r, 0, 1, mode, [defined |-> RhatDefined(r, RhatArg(mode, fl)), chains |-> RhatChains(r, mode)], <<>>, fl')
 
 FBurnthin(r, b, t) ==
@@ -392,8 +394,8 @@ FBurnthin(r, b, t) ==
     /\ LET err == Refuses(fo[r], b)
            new == IF err THEN fo[r] ELSE Thinned(fo[r], b, t)
        IN /\ fo' = IF err THEN fo ELSE Store(new)
-          /\ UNCHANGED <<fc, fl, fl0, fthin>>
-          /\ FEmit("burnthin", r, b, t, "", [err |-> err, new |-> new],
+          /\ UNCHANGED <<fc, fl, fl0, fthin, fswap>>
+          /\ FEmit("burnthin", r, b, t, "", [err |-> err, new |-> new, rows |-> FRows(new)],
                    IF err \/ ~Room THEN <<>> ELSE <<new>>, fl)
 
 FConv(r, kind) ==
@@ -404,8 +406,8 @@ FConv(r, kind) ==
            new  == ConvRes(o, kind)
        IN /\ fo' = IF Dev = "convinplace" THEN [fo EXCEPT ![r] = new]       \* deviation: converts the receiver itself
                    ELSE IF same THEN fo ELSE Store(new)
-          /\ UNCHANGED <<fc, fl, fl0, fthin>>
-          /\ FEmit("conv", r, 0, 1, kind, [same |-> same, new |-> new],
+          /\ UNCHANGED <<fc, fl, fl0, fthin, fswap>>
+          /\ FEmit("conv", r, 0, 1, kind, [same |-> same, new |-> new, rows |-> FRows(new)],
                    IF same \/ ~Room \/ Dev = "convinplace" THEN <<>> ELSE <<new>>, fl)
 
 \* the CALLER replaces every element of its list:  for k: lst[k] = lst[k].burnthin(b, t)   (at most once)
@@ -417,15 +419,27 @@ FThinList(b, t) ==
           /\ fl' = [k \in 1..Len(fl) |-> Len(fo) + k]
           /\ fl0' = fl'
           /\ fthin' = TRUE
-          /\ UNCHANGED fc
-          /\ FEmit("thinlist", 0, b, t, "", [new |-> news], news, fl')
+          /\ UNCHANGED <<fc, fswap>>
+          /\ FEmit("thinlist", 0, b, t, "", [new |-> news, rows |-> F([k \in 1..Len(news) |-> FRows(news[k])])], news, fl')
+
+\* the CALLER replaces the first element of its list by a chain that is not in it:  lst[0] = other   (at most once,
+\* before thinning): same length, same shapes, other contents
+Spare == {i \in 2..NBase : \A k \in DOMAIN fl : fl[k] # i}
+FSwapList ==
+    /\ ~fthin /\ ~fswap /\ Spare # {}
+    /\ LET sp == CHOOSE i \in Spare : \A j \in Spare : i <= j
+       IN /\ fl' = [fl EXCEPT ![1] = sp]
+          /\ fl0' = fl'
+          /\ fswap' = TRUE
+          /\ UNCHANGED <<fc, fo, fthin>>
+          /\ FEmit("swaplist", 0, 0, 1, "", [spare |-> sp], <<>>, fl')
 
 FConfigs == {[N |-> n, g |-> g, lst |-> k] : n \in FrameNs, g \in FrameGeoms, k \in FrameLists}
 FBase(k) == [i \in 1..NBase |-> [ch |-> i - 1, cols |-> [m \in 1..k.N |-> m - 1], par |-> TRUE, vec |-> TRUE, geom |-> k.g]]
 NoC == [N |-> 0, g |-> "none", joint |-> FALSE]
 
 FInit == /\ fc \in FConfigs
-         /\ fo = FBase(fc) /\ fl = FList(fc.lst) /\ fl0 = FList(fc.lst) /\ fthin = FALSE
+         /\ fo = FBase(fc) /\ fl = FList(fc.lst) /\ fl0 = FList(fc.lst) /\ fthin = FALSE /\ fswap = FALSE
          /\ c = NoC /\ obj = NoObj /\ obj2 = NoObj /\ src = NoObj /\ sel = [off |-> 0, stride |-> 1]
 
 FNext == /\ \/ \E r \in DOMAIN fo : \/ FStat(r) \/ FEss(r)
@@ -434,6 +448,7 @@ FNext == /\ \/ \E r \in DOMAIN fo : \/ FStat(r) \/ FEss(r)
                                     \/ \E bt \in FBT(fc.N) : FBurnthin(r, bt[1], bt[2])
                                     \/ \E k \in {"funvals", "vector", "parameters"} : FConv(r, k)
             \/ \E bt \in FBTList : FThinList(bt[1], bt[2])
+            \/ FSwapList
          /\ UNCHANGED vars
 
 \* bound for the deviation runs (the list grows with every call)
@@ -443,7 +458,7 @@ FBound == Len(fl) <= 6
 \* no step alters an object that exists (receiver, list elements, any other); only the caller's own step alters the list
 FrameStep == /\ Len(fo') >= Len(fo)
              /\ \A i \in DOMAIN fo : fo'[i] = fo[i]
-             /\ (fl' # fl \/ fl0' # fl0) => (~fthin /\ fthin')
+             /\ (fl' # fl \/ fl0' # fl0) => ((~fthin /\ fthin') \/ (~fswap /\ fswap'))
 Frame == [][FrameStep]_fvars
 \* whatever was called before: the chains entering R-hat are the receiver followed by the caller's list (its first
 \* element for a single Samples argument), in the caller's order
@@ -456,7 +471,7 @@ FHeapLegal == \A i \in DOMAIN fo : /\ fo[i].cols # <<>> /\ (fo[i].par => fo[i].v
 \* evaluated once per distinct state: emits the exact rows of every object and the exact statistics of the newest receiver
 FNode ==
     fo # <<>> =>
-    (Emit => PrintT("@@CASE " \o ToJson([kind |-> "fnode", c |-> fc, fo |-> fo, fl |-> fl,
+    (Emit => PrintT("@@CASE " \o ToJson([kind |-> "fnode", c |-> fc, fo |-> fo, fl |-> fl, init |-> (~fthin /\ ~fswap /\ Len(fo) = NBase),
                                          rows |-> F([i \in 1..Len(fo) |-> FRows(fo[i])]),
                                          statsof |-> LastRecv, stats |-> AllStats(fo[LastRecv])]) \o " @@END"))
 =============================================================================
